@@ -4,11 +4,14 @@ run them (with demo verification), remove the mutant worktree."""
 import json, shutil, subprocess, sys
 from pathlib import Path
 V = Path(__file__).resolve().parent.parent
-pid, needs = sys.argv[1], sys.argv[2:]
+args = sys.argv[1:]
 tag = ""
+if args[0] == "--tag":
+    tag = args[1]; args = args[2:]
+pid, needs = args[0], args[1:]
 ids = []
 for k, need in enumerate(needs, 1):
-    src = Path(f"/tmp/mutants/{pid}/{k}")
+    src = Path(f"/tmp/mutants/{pid}{tag}/{k}")
     n = len(list((V / "seeded").glob(f"{pid}-*")))
     dst = V / "seeded" / f"{pid}-{n + 1}"
     dst.mkdir(parents=True)
@@ -21,4 +24,4 @@ for k, need in enumerate(needs, 1):
         "ran": "demo.py with and without the patch (tools/seeded_run.py --verify-demo); the sub-agent ran the full pytest suite against the patched worktree (passes)"}, indent=1))
     ids.append(dst.name)
 subprocess.run([sys.executable, str(V / "tools" / "seeded_run.py"), "--verify-demo", *ids])
-subprocess.run(f"git -C /repo worktree remove --force /tmp/mw-{pid}; git -C /repo branch -D mw-{pid} -q; rm -rf /tmp/mutants/{pid} /tmp/prompt_{pid}.txt", shell=True)
+subprocess.run(f"git -C /repo worktree remove --force /tmp/mw-{pid}{tag}; git -C /repo branch -D mw-{pid}{tag} -q; rm -rf /tmp/mutants/{pid}{tag} /tmp/prompt_{pid}{tag}.txt", shell=True)
